@@ -8,7 +8,7 @@ echo "== baseline"; python3 /verif/tools/baseline.py $wt | head -5
 echo "== demo on changed"; rm -rf /tmp/seed_demo && cp -r $out/demo /tmp/seed_demo && cd /tmp/seed_demo && sed -i "s#=> .*#=> $wt#" go.mod && cp $wt/go.sum . && (go run . 2>&1 | tail -3; echo "exit=${PIPESTATUS[0]}")
 echo "== demo on /repo"; sed -i "s#=> .*#=> /repo#" go.mod && (go run . 2>&1 | tail -3; echo "exit=${PIPESTATUS[0]}")
 cd /; rm -rf /tmp/seed_demo
-echo "== checks on patched /repo"
+cp /verif/known-findings.json /tmp/seed_verif/ 2>/dev/null; echo "== checks on patched /repo"
 git -C /repo status --short | grep -v '^??' && { echo "/repo dirty"; exit 1; }
 git -C /repo apply $out/patch.diff || { echo APPLY-FAILED; exit 1; }
 props=${4:-$prop}
